@@ -450,10 +450,16 @@ def _run_queue(case):
 
         def register(hid, event, prio, kind, delay, other):
             fn, is_async = make_handler(hid, prio, kind, delay, other)
+            # every third handler gets (part of) its priority through the event string ("q0.4" = 4 on top of the
+            # priority argument), as config-driven handlers do; the effective priority is the same
+            extra = prio - 1 if (hid + prio) % 3 == 0 and prio >= 2 else 0
+            ev_str = "%s.%d" % (event, extra) if extra else event
+            if extra:
+                obs["suffix_priority_handlers"] = obs.get("suffix_priority_handlers", 0) + 1
             if is_async:
-                key = ev.add_async_handler(event, fn, priority=prio)
+                key = ev.add_async_handler(ev_str, fn, priority=prio - extra)
             else:
-                key = ev.add_handler(event, fn, priority=prio)
+                key = ev.add_handler(ev_str, fn, priority=prio - extra)
             regs.setdefault(event, []).append((hid, prio))
             reglog[hid] = {"event": event, "prio": prio, "add": tick(), "rem": None, "key": key}
 
@@ -558,7 +564,10 @@ def _run_relay(case):
             kw = dict(hkw)
             kw["_rid"] = rid
             chk.add_reg(rid, event, hid, prio, kw, None)
-            ev.add_handler(event, make_handler(hid, ret, salt), priority=prio, **kw)
+            # every third handler gets (part of) its priority through the event string ("r0.4")
+            extra = prio - 1 if (hid + prio) % 3 == 0 and prio >= 2 else 0
+            ev.add_handler("%s.%d" % (event, extra) if extra else event, make_handler(hid, ret, salt),
+                           priority=prio - extra, **kw)
 
         def make_cb(pid, type_):
             def cb(**kwargs):
